@@ -320,6 +320,61 @@ def crash_code(o):
     return pack(au.ser_rows(o["rows"]) + au.ser_dirs(o["dirs"]) + ser_bool(o["stage"]))
 
 
+def durability_assumption(chk):
+    """The model's (and the theorems') view of the version index: a process that dies loses exactly its open
+    transaction.  sqlite guarantees that only with an on-disk rollback journal (or WAL) and synchronous writes, so
+    the connections the implementation opens are asked for their settings -- every way of opening an index."""
+    import pathlib
+    import sqlite3
+    from common import new_dir, setup_impl_path
+
+    setup_impl_path()
+    from conductor.execution.version_index import VersionIndex
+
+    d = new_dir("durab")
+    found = {}
+    real_connect = sqlite3.connect
+    opened = []
+
+    def spy(*a, **kw):
+        c = real_connect(*a, **kw)
+        opened.append(c)
+        return c
+
+    sqlite3.connect = spy
+    try:
+        p1 = pathlib.Path(d, "version_index.sqlite")
+        vi = VersionIndex.create_or_load(p1)          # creates
+        vi.commit_changes()
+        del vi
+        vi = VersionIndex.create_or_load(p1)          # loads
+        p2 = pathlib.Path(d, "archive_index.sqlite")
+        dest = VersionIndex.create_or_load(p2)        # the archive index
+        try:
+            vi.copy_entries_to(dest, None, False)
+        except Exception:  # pylint: disable=broad-except
+            pass
+    finally:
+        sqlite3.connect = real_connect
+    for i, c in enumerate(opened):
+        try:
+            jm = c.execute("PRAGMA journal_mode").fetchone()[0].lower()
+            sy = int(c.execute("PRAGMA synchronous").fetchone()[0])
+        except sqlite3.Error as e:
+            jm, sy = "closed (%s)" % e, 2
+            continue
+        found["connection %d" % i] = (jm, sy)
+        chk.coverage["evaluations"] += 1
+        if jm not in ("delete", "truncate", "persist", "wal") or sy == 0:
+            chk.violation("impl-violation", "the version index is opened with journal_mode=%s synchronous=%s: after a kill in the middle of a transaction sqlite cannot roll the "
+                          "file back, so recorded versions are not exactly those committed before (the crash model of this property assumes an on-disk journal)" % (jm, sy),
+                          {"input": {"part": "durability"}, "impl_observation": found, "oracle_verdict": "journal_mode in delete/truncate/persist/wal and synchronous != OFF"},
+                          match_key={"durability": jm}, size=1)
+    chk.count("durability", "connections inspected", len(found))
+    if not found:
+        chk.violation("correspondence", "no sqlite connection of the version index could be inspected", {"theorem_or_tie": "durability assumption of the crash model"}, found_input=False)
+
+
 def run(tier, seed, replay=None):
     chk = Check("C12", tier, seed)
     # (the stale-staging defect D18 found by this check is fixed in /repo by commit a192dfb; see known_findings.jsonl)
@@ -333,6 +388,7 @@ def run(tier, seed, replay=None):
         print("replay: nothing to re-run (%s)" % replay.get("theorem_or_tie"))
         return chk.finish()
     else:
+        durability_assumption(chk)
         jobs = []
         # corpus: every fault once on a fixed-shape project, then random subsets
         jobs.append(gen_job(au.sub_rng(chk.rng), faults=FAULTS[:8], sweep={"mode": "sample", "n": 14, "target": "clean"}))
